@@ -14,7 +14,8 @@ EXPLANATION = (
     "operands with to_ascii_lowercase; Label (eq_ignore_ascii_case / cmp_with_f::<CaseInsensitive> / lower-cased hash), LowerName "
     "(built only through Name::to_lowercase; eq_case / cmp_case / raw label hash) and RrKey (field-wise) delegate consistently; "
     "(G2) cmp_labels iterates both names reversed (right to left), returns on the first unequal octet comparison, then on label "
-    "length, and finally compares label counts.")
+    "length, and finally compares label counts. (G4) the text parser Name::from_encoded_str constructs no length error of its own and never compares the character count of "
+    "the presentation form with a limit: lengths are judged on the wire form by the guarded builders it propagates from.")
 NOT_DECIDED = ("The order laws themselves, equivalence with RFC 4034 6.1 on values, text and wire round trips (escape state machine) - "
                "value properties.")
 ASSUMPTIONS = ["FULL feature configuration", "TinyVec/slice API semantics"]
